@@ -63,11 +63,13 @@ impl<K: Ord, V: KeyValue<K> + Clone + Default> SetCollection<K, V> for SetTree<K
         } else {
             // find first parent where we not right
             let mut parent_index = node.parent;
-            let mut parent = self.node(parent_index);
-            while parent.right == index {
+            while parent_index != EMPTY_REF {
+                let parent = self.node(parent_index);
+                if parent.right != index {
+                    break;
+                }
                 index = parent_index;
                 parent_index = parent.parent;
-                parent = self.node(parent_index);
             }
             parent_index
         }
@@ -81,11 +83,13 @@ impl<K: Ord, V: KeyValue<K> + Clone + Default> SetCollection<K, V> for SetTree<K
         } else {
             // find first parent where we not left
             let mut parent_index = node.parent;
-            let mut parent = self.node(parent_index);
-            while parent.left == index {
+            while parent_index != EMPTY_REF {
+                let parent = self.node(parent_index);
+                if parent.left != index {
+                    break;
+                }
                 index = parent_index;
                 parent_index = parent.parent;
-                parent = self.node(parent_index);
             }
             parent_index
         }
